@@ -54,6 +54,7 @@ Definition check_fresh (c : fresh_case) : bool :=
                  (combine (files_of new) rops) in
   let frames := map uframe rframes in
   let model_frames := write_patch (table_differ tbl) algo q old new in
+  wf_buildb new &&                      (* the generated build meets the theorem's hypothesis *)
   list_eqb frame_eqb model_frames frames &&
   match apply_patch_fresh BS (contents_of old) None frames with
   | Ok (t, touched, _) =>
